@@ -243,13 +243,27 @@ congruence<Number>::operator&(const congruence<Number> &o) const {
   } else {
     // pre: a and o.a != 0
     Number x = gcd(m_a, o.m_a);
-    if (m_b % x == (o.m_b % x)) {
-      // the part max(b,o.b) needs to be verified. What we really
-      // want is to find b'' such that
-      // 1) b'' % lcm(a,a') == b  % lcm(a,a'), and
-      // 2) b'' % lcm(a,a') == b' % lcm(a,a').
-      // An algorithm for that is provided in Granger'89.
-      return congruence<Number>(lcm(m_a, o.m_a), max(m_b, o.m_b));
+    if ((m_b - o.m_b) % x == 0) {
+      // Find b'' such that b'' = b (mod a) and b'' = b' (mod a'),
+      // that is b'' = b + a*k with (a/x)*k = (b'-b)/x (mod a'/x).
+      // Since a/x and a'/x are coprime k is obtained with the
+      // inverse of a/x modulo a'/x (extended Euclid's algorithm).
+      Number a1 = abs(m_a) / x;
+      Number a2 = abs(o.m_a) / x;
+      Number d = (o.m_b - m_b) / x;
+      Number r0(a2), r1(a1 % a2), t0(0), t1(1);
+      while (r1 != 0) {
+        Number q = r0 / r1;
+        Number r2 = r0 - q * r1;
+        Number t2 = t0 - q * t1;
+        r0 = r1;
+        r1 = r2;
+        t0 = t1;
+        t1 = t2;
+      }
+      // if a2 == 1 then any k works and t0 is 0
+      Number k = (a2 == 1) ? Number(0) : ((d % a2) * (t0 % a2)) % a2;
+      return congruence<Number>(lcm(m_a, o.m_a), m_b + abs(m_a) * k);
     } else {
       return congruence<Number>::bottom();
     }
